@@ -36,11 +36,15 @@ def ident(x):
     return x
 
 
-PLAIN = {"mix": mix, "pair": pair, "mkdict": mkdict, "mklist": mklist, "ident": ident}
+def label(c):
+    return "n" + str(c)
+
+
+PLAIN = {"mix": mix, "pair": pair, "mkdict": mkdict, "mklist": mklist, "ident": ident, "label": label}
 OPS = {"add": operator.add, "sub": operator.sub, "mul": operator.mul, "lt": operator.lt, "ge": operator.ge,
        "eq": operator.eq, "ne": operator.ne, "neg": operator.neg, "abs": operator.abs,
-       "floordiv": operator.floordiv, "mod": operator.mod}
-AUG = {"add": operator.iadd, "sub": operator.isub, "mul": operator.imul, "floordiv": operator.ifloordiv, "mod": operator.imod}
+       "floordiv": operator.floordiv, "mod": operator.mod, "bor": operator.or_}
+AUG = {"add": operator.iadd, "sub": operator.isub, "mul": operator.imul, "floordiv": operator.ifloordiv, "mod": operator.imod, "bor": operator.ior}
 LOGIC = {"and": lambda a, b: a and b, "or": lambda a, b: a or b, "not": lambda a: not a}
 
 
@@ -58,18 +62,23 @@ def index(v, path):
 
 
 # ---------------------------------------------------------------- plain-Python reference (second oracle)
-def blank(v):
-    if isinstance(v, tuple):
-        return tuple(blank(x) for x in v)
-    if isinstance(v, list):
-        return [blank(x) for x in v]
-    if isinstance(v, dict):
-        return {k: blank(x) for k, x in v.items()}
-    return None
+def setup_paths(P, pre=()):
+    """Paths of all setup call sites, also those of nested DAGs (a nested setup node is a setup node of the outer DAG)."""
+    out = []
+    for j, s in enumerate(P["sites"], 1):
+        if s.get("setup"):
+            out.append(list(pre + (j,)))
+        elif s["kind"] == "sub":
+            out += setup_paths(P["subs"][s["sub"] - 1], pre + (j,))
+    return out
 
 
-def plain_eval(P, args, pre=(), off=False, executed=None):
-    """Evaluate the body sequentially with plain callables. Returns the value; fills `executed`."""
+def plain_eval(P, args, pre=(), off=False, executed=None, mode="letter"):
+    """Evaluate the body sequentially with plain callables. Returns the value; fills `executed`.
+
+    off: the body of a deactivated nested DAG - only its setup call sites execute, all its outputs are None
+    (mode "keep": except a setup result it returns directly; mode "index": an indexed part of an inner result is obtained by
+    indexing the None of the deactivated node - the variant readings of spec/Dataflow.tla)."""
     if executed is None:
         executed = {}
     env = []
@@ -85,7 +94,7 @@ def plain_eval(P, args, pre=(), off=False, executed=None):
     for j, s in enumerate(P["sites"], 1):
         pos = [res(r) for r in s["args"]]
         kws = {k["name"]: res(k["ref"]) for k in s["kw"]}
-        act = (not off) and (s["active"]["c"] == "none" or bool(res(s["active"])))
+        act = True if s.get("setup") else (not off) and (s["active"]["c"] == "none" or bool(res(s["active"])))
         if s["kind"] == "sub":
             Q = P["subs"][s["sub"] - 1]
             if len(pos) > len(Q["params"]):
@@ -95,7 +104,7 @@ def plain_eval(P, args, pre=(), off=False, executed=None):
                 if not Q["params"][p]["has"]:
                     raise TypeError("missing argument")
                 bound.append(decode(Q["params"][p]["v"]))
-            v = plain_eval(Q, bound, pre + (j,), not act, executed)
+            v = plain_eval(Q, bound, pre + (j,), off or not act, executed, mode)
         else:
             if act:
                 executed[pre + (j,)] = executed.get(pre + (j,), 0) + 1
@@ -111,11 +120,21 @@ def plain_eval(P, args, pre=(), off=False, executed=None):
             else:
                 v = None
         env.append(v)
-    outs = [res(r) for r in P["ret"]["refs"]]
+
+    def out(r):
+        if not off:
+            return res(r)
+        if r["c"] == "site" and P["sites"][r["n"] - 1]["kind"] == "sub":
+            return res(r)
+        if mode == "keep" and r["c"] == "site" and P["sites"][r["n"] - 1].get("setup"):
+            return res(r)
+        if mode == "index" and r["c"] == "site" and not P["sites"][r["n"] - 1].get("setup"):
+            return res(r)
+        return None
+    outs = [out(r) for r in P["ret"]["refs"]]
     shape = P["ret"]["shape"]
-    val = {"single": lambda: outs[0], "tuple": lambda: tuple(outs), "list": lambda: list(outs),
-           "dict": lambda: dict(zip(P["ret"]["keys"], outs)), "none": lambda: None}[shape]()
-    return blank(val) if off else val
+    return {"single": lambda: outs[0], "tuple": lambda: tuple(outs), "list": lambda: list(outs),
+            "dict": lambda: dict(zip(P["ret"]["keys"], outs)), "none": lambda: None}[shape]()
 
 
 def plain_call(P, given):
@@ -129,9 +148,15 @@ def plain_call(P, given):
     executed = {}
     try:
         v = plain_eval(P, bound, (), False, executed)
+        vk = plain_eval(P, bound, (), False, {}, mode="keep")
     except Exception as e:  # noqa: BLE001
         return {"err": True, "exc": repr(e)[:100]}
-    return {"val": encode(v), "exec": sorted(list(k) for k in executed)}
+    try:
+        plain_eval(P, bound, (), False, {}, mode="index")
+        err_i = False
+    except Exception:  # noqa: BLE001
+        err_i = True
+    return {"val": encode(v), "valK": encode(vk), "errI": err_i, "exec": sorted(list(k) for k in executed)}
 
 
 # ---------------------------------------------------------------- the real DAG
@@ -140,7 +165,7 @@ class Built:
         self.site_ids = {}      # path (tuple of site numbers) -> node id in the outermost DAG
 
 
-def build(P, attrs, name="top", is_async=False, mc=2, built=None, _counter=None):
+def build(P, attrs, name="top", is_async=False, mc=2, built=None, _counter=None, share=None, presub=None):
     """Build the tawazi DAG of program P. attrs(fn_key) -> dict(priority, is_sequential, resource).
 
     Returns (dag, local_ids) where local_ids maps site number -> list of (relative path, id inside this DAG)."""
@@ -150,8 +175,15 @@ def build(P, attrs, name="top", is_async=False, mc=2, built=None, _counter=None)
     subdags = []
     for k, Q in enumerate(P["subs"], 1):
         _counter[0] += 1
-        subdags.append(build(Q, attrs, name=f"sub{_counter[0]}", is_async=False, mc=mc, _counter=_counter))
-    fns = {}
+        subdags.append(build(Q, attrs, name=f"sub{_counter[0]}", is_async=False, mc=mc, _counter=_counter, share=share, presub=presub))
+        # presub: sometimes the nested DAG has run its setup nodes on its own before it is called inside the outer one -
+        # the outer DAG then starts with those results (they are copied under the prefixed ids)
+        if presub is not None and setup_paths(Q) and presub():
+            subdags[-1][0].setup()
+    # share: one table of decorated functions for the DAGs of all nesting levels - outer and inner DAGs then use the SAME
+    # function names, so only the id prefix of a nested DAG keeps their nodes apart (C20)
+    fns = share if share is not None else {}
+    fname_prefix = "f" if share is not None else name
 
     def fn_for(fname, setup=False):
         if setup:
@@ -162,8 +194,8 @@ def build(P, attrs, name="top", is_async=False, mc=2, built=None, _counter=None)
                     if PRE_HOOK is not None:
                         PRE_HOOK()
                     return g(*a, **kw)
-                swrapper.__qualname__ = swrapper.__name__ = f"{name}_{fname}_setup"
-                fns[("s", fname)] = xn(swrapper, setup=True, **attrs(f"{name}_{fname}_setup"))
+                swrapper.__qualname__ = swrapper.__name__ = f"{fname_prefix}_{fname}_setup"
+                fns[("s", fname)] = xn(swrapper, setup=True, **attrs(f"{fname_prefix}_{fname}_setup"))
             return fns[("s", fname)]
         if fname not in fns:
             f = PLAIN[fname]
@@ -172,8 +204,8 @@ def build(P, attrs, name="top", is_async=False, mc=2, built=None, _counter=None)
                 if PRE_HOOK is not None:
                     PRE_HOOK()
                 return f(*a, **kw)
-            wrapper.__qualname__ = wrapper.__name__ = f"{name}_{fname}"
-            fns[fname] = xn(wrapper, **attrs(f"{name}_{fname}"))
+            wrapper.__qualname__ = wrapper.__name__ = f"{fname_prefix}_{fname}"
+            fns[fname] = xn(wrapper, **attrs(f"{fname_prefix}_{fname}"))
         return fns[fname]
     local = {}
 
@@ -285,3 +317,50 @@ def run_real(d, flat, given, is_async):
     if obs["val"] is None:
         obs["val"] = {"k": "err", "i": 0, "s": [], "x": "", "ks": []}
     return obs
+
+
+def run_real_turn(d, flat, givens, setup_paths):
+    """AsyncDAG only: the coroutines of all the calls are created first, then awaited one after the other in one loop -
+    the meaning is that of calls made one after the other.  Returns (observation, setup paths held before the call) list."""
+    from tawazi import _verif
+
+    id2path = {}
+    for path, iid in flat:
+        id2path.setdefault(iid, path)
+    out = []
+
+    async def main():
+        coros = []
+        for given in givens:
+            try:
+                coros.append(("ok", d(*[decode(x) for x in given])))
+            except BaseException as e:  # noqa: BLE001
+                coros.append(("err", e))
+        for kind, c in coros:
+            rec = Recorder()
+            pre = sorted(list(path) for path, iid in flat if list(path) in setup_paths and iid in d.results)
+            obs = {"raised": False, "errclass": "", "val": None}
+            _verif.sink = rec
+            try:
+                if kind == "err":
+                    raise c
+                obs["val"] = encode(await c)
+            except BaseException as e:  # noqa: BLE001
+                obs["raised"] = True
+                obs["errclass"] = errclass(e)
+                obs["msg"] = str(e)[:200]
+            finally:
+                _verif.sink = None
+            execd, dup, unknown = [], False, []
+            for iid, n in rec.entered.items():
+                if iid in id2path:
+                    execd.append(list(id2path[iid]))
+                    dup = dup or n > 1
+                else:
+                    unknown.append(iid)
+            obs.update({"exec": sorted(execd), "dup": dup, "unknown": unknown[:5]})
+            if obs["val"] is None:
+                obs["val"] = {"k": "err", "i": 0, "s": [], "x": "", "ks": []}
+            out.append((obs, pre))
+    asyncio.run(main())
+    return out
